@@ -38,7 +38,7 @@ REDUCED = [
     ["-  two spaces"],
     ["o P3  2024-02-05 two spaces dated"],
 ]
-LAYOUTS = ["same_block", "two_blocks", "dated_h2", "subdir", "two_pages", "same_name_pages", "deep_sections"]
+LAYOUTS = ["same_block", "two_blocks", "dated_h2", "subdir", "two_pages", "same_name_pages", "deep_sections", "h2_first"]
 
 
 def variant_items():
@@ -85,6 +85,10 @@ def build_files(case) -> dict[str, str]:
                 + f"{H2R} Two k::v\n\n- 240110#ZA under two\n\n{H3R_} Three 2024-03-03\n\n" + B + "\n"
                 + f"{H4R_} Four @c4\n\n" + A.replace("#Z", "#X").replace("plain one", "plain again") + "- 240111#ZB last under four\n\n"
                 + f"{H2R} Two again\n\n- 240112#ZC in the second h2\n"}
+    if layout == "h2_first":
+        H3R_ = "+" * 16
+        return {"a.zo": "# t\n\n" + f"{H2R} Leading two #l2\n\n" + A + "\n" + f"{H3R_} Under it\n\n" + B
+                + "\n" + f"{'#' * 32} Then an h1\n\n- 240113#ZD under the h1\n"}
     if layout == "same_name_pages":
         return {"work/a.zo": "# w\n\n" + A, "home/a.zo": "# h 2024-04-04\n\n" + B, "a.zo": "# top\n\n- 240103#Z3 top note\n"}
     if layout == "two_pages":
@@ -282,7 +286,7 @@ def run(ctx: F.Ctx):
             "bullets incl. a bullet property}) between two notes that already have ZIDs; (b) every "
             "ordered pair of a 12-item alphabet (ZID-less, dated, multi-line, with ZID, stamped, "
             "irregular spacing) in 5 layouts (same block, two blocks, under a dated H2, page in a "
-            "sub-directory, two pages, pages with the same file name in different sub-directories, H1>H2>H3>H4 nesting); with and without a pre-existing next_ids.json whose next "
+            "sub-directory, two pages, pages with the same file name in different sub-directories, H1>H2>H3>H4 nesting, a page whose body opens with an H2 section); with and without a pre-existing next_ids.json whose next "
             "suffixes sit right before every carry and every skip over excluded characters. Histories over {create, reindex} (quick: c, cc, cr; thorough adds crr, "
             "ccr, crc), same day and with the day advancing between steps. Every transition runs "
             "the real CLI in a fresh process; state = files + raw index + meta stores. Invariants "
